@@ -46,11 +46,11 @@ ParseV(spec) ==
     IF T.out.exc \notin {"", "DecodeError"} THEN Rej("exception-class " \o T.out.exc)
     ELSE IF T.fn = "parse" THEN
         IF spec.ok THEN (IF ~T.out.ok THEN Rej("rejects-valid")
-                         ELSE IF T.out.tree # spec.tree THEN Rej("tree") ELSE Acc)
+                         ELSE IF ~SameTree(T.out.tree, spec.tree) THEN Rej("tree") ELSE Acc)
         ELSE (IF T.out.ok THEN Rej("accepts-invalid")
               ELSE IF <<T.out.line, T.out.col>> # <<spec.line, spec.col>> THEN Rej("error-position") ELSE Acc)
     ELSE
-        IF T.out.trees # spec.trees THEN Rej("trees")
+        IF ~SameTrees(T.out.trees, spec.trees) THEN Rej("trees")
         ELSE IF ~spec.ok /\ spec.tail THEN (IF T.out.ok THEN Drift("comments after the last graph are ignored, not an error (O3)") ELSE Acc)
         ELSE IF spec.ok THEN (IF ~T.out.ok THEN Rej("rejects-valid") ELSE Acc)
         ELSE (IF T.out.ok THEN Rej("accepts-invalid")
@@ -70,7 +70,7 @@ FmtV(a, b) ==
             <<"spec-parse-of-text-accepts", a.ptext.ok>>,
             <<"spec-parse-of-text-gives-tree", a.ptext.ok /\ a.ptext.tree = T.tree>>,
             <<"impl-reparse-accepts", T.re.ok>>,
-            <<"impl-reparse-gives-tree", T.re.ok /\ T.re.tree = T.tree>>,
+            <<"impl-reparse-gives-tree", T.re.ok /\ SameTree(T.re.tree, T.tree)>>,
             <<"same-tokens-under-all-options", a.ktext = b.canon>>,
             <<"format-parse-format-fixed-point", T.text2 = T.text>> >>, 1)
          IN IF v # Acc THEN v ELSE IF T.text # b.exact THEN Drift("whitespace differs from Fmt") ELSE Acc
@@ -82,8 +82,8 @@ FixV(spec) ==
     IF ~spec.ok THEN NA("input not accepted")
     ELSE FirstFail(<<
             <<"impl-accepts", T.out.ok>>,
-            <<"impl-tree", T.out.ok /\ T.out.tree = spec.tree>>,
-            <<"reparse-equal-tree", T.re1.ok /\ T.re1.tree = spec.tree>>,
+            <<"impl-tree", T.out.ok /\ SameTree(T.out.tree, spec.tree)>>,
+            <<"reparse-equal-tree", T.re1.ok /\ SameTree(T.re1.tree, spec.tree)>>,
             <<"fixed-point", T.f2 = T.f1>> >>, 1)
 
 (* ---------------- kind = "triples" (C19) ---------------- *)
